@@ -202,10 +202,19 @@ def build_hand(spec, crash):
 
 # --------------------------------------------------------------------------- running one case
 
-def run_case(prog, fault=None, interrupt_at=None):
-    """fault: None | (n, exc).  Returns (Traced, framer names scheduled, number of crash points)."""
+def run_case(prog, fault=None, interrupt_at=None, dispatch=None):
+    """fault: None | (n, exc).  dispatch: None | n: the n-th control the skedder sends is replaced by
+    a KeyboardInterrupt raised before the generator is resumed.
+    Returns (Traced, taskable names in order, framer names, number of crash points)."""
     from mc.flo import real, sked
     kind, title, body = prog
+    before = None
+    if dispatch is not None:
+        seen = {"n": 0}
+
+        def before(ent):
+            seen["n"] += 1
+            return KeyboardInterrupt("delivered at dispatch %d" % dispatch) if seen["n"] == dispatch else None
     if kind == "flo":
         b = real.build_text(body)
         if not b.ok:
@@ -215,7 +224,7 @@ def run_case(prog, fault=None, interrupt_at=None):
         real.FAULT["count"] = 0
         real.FAULT["at"], real.FAULT["exc"] = (fault if fault is not None else (None, None))
         try:
-            res = sked.run_traced(house, real.EVENTS, tick=TICK, horizon=30, interrupt_at=interrupt_at)
+            res = sked.run_traced(house, real.EVENTS, tick=TICK, horizon=30, interrupt_at=interrupt_at, before_send=before)
         finally:
             real.FAULT["at"], real.FAULT["exc"] = None, None
         npoints = real.FAULT["count"]
@@ -223,7 +232,7 @@ def run_case(prog, fault=None, interrupt_at=None):
         return res, order, set(order), npoints
     house, ref, count = build_hand(body, fault)
     res = ref["res"] = sked.Traced()
-    sked.run_traced(house, [], tick=TICK, horizon=30, interrupt_at=interrupt_at, res=res)
+    sked.run_traced(house, [], tick=TICK, horizon=30, interrupt_at=interrupt_at, res=res, before_send=before)
     order = [t.name for t in house.taskables]
     return res, order, set(), count["n"]
 
@@ -259,7 +268,7 @@ def split(res, order):
             if cut is not None:
                 npass = min(npass, cut)
             for i, s in enumerate(sends[:npass]):
-                if str(s["status"]).startswith("raised"):
+                if str(s["status"]).startswith(("raised", "not-delivered")):
                     npass = i + 1
                     break
             sweep = sends[npass:]
@@ -267,7 +276,7 @@ def split(res, order):
         more = False
         for s in ticks[idx][2]:
             st = s["status"]
-            if s["name"] in queued and (st in ("aborted", "StopIteration") or str(st).startswith("raised")):
+            if s["name"] in queued and (st in ("aborted", "StopIteration") or str(st).startswith(("raised", "not-delivered"))):
                 queued.remove(s["name"])
             if st in ("started", "running"):
                 more = True
@@ -408,6 +417,22 @@ def work(prog):
         p.evaluations += 1
         p.nontrivial("%s|int%d" % (title, k))
         judge(p, prog, res, o, f, None, k, "KeyboardInterrupt between tick %d and %d" % (k - 1, k))
+    # observation (not judged, see notes): KeyboardInterrupt delivered inside the skedder's own loop, after a
+    # tasker was popped from the queue and before its generator is resumed
+    npass_sends = sum(len(t[2]) for t in split(res0, order)[0])
+    for d in range(1, npass_sends + 1):
+        res, o, f, _ = run_case(prog, dispatch=d)
+        p.evaluations += 1
+        ent = [e for e in res.trace if isinstance(e, dict) and str(e["status"]).startswith("not-delivered")]
+        if len(ent) != 1:
+            raise core.BrokenCheck("dispatch interrupt %d not delivered exactly once in %s" % (d, title))
+        name = ent[0]["name"]
+        later = [e for e in res.trace[res.trace.index(ent[0]) + 1:] if isinstance(e, dict) and e["name"] == name]
+        if res.outcome == "returned" and not later:
+            p.notes["KeyboardInterrupt delivered between popleft and send: run returns, the popped tasker (generator alive) is "
+                    "neither re-queued nor sent ABORT"] += 1
+        else:
+            p.notes["KeyboardInterrupt delivered between popleft and send: other behaviour"] += 1
     # every crash point x {RuntimeError, KeyboardInterrupt}
     for n in range(1, npoints + 1):
         for mk in (RuntimeError, KeyboardInterrupt):
